@@ -941,3 +941,31 @@ func constObjInt(o types.Object) int64 {
 	}
 	return v
 }
+
+// resultOf resolves the i-th result of a return, looking through the local
+// cell go/ssa introduces for results of functions with defers
+// (`*t0 = v; rundefers; t = *t0; return t`).
+func resultOf(r *ssa.Return, i int) ssa.Value {
+	v := r.Results[i]
+	u, ok := v.(*ssa.UnOp)
+	if !ok || u.Op != token.MUL {
+		return v
+	}
+	al, ok := u.X.(*ssa.Alloc)
+	if !ok {
+		return v
+	}
+	var last ssa.Value
+	for _, in := range r.Block().Instrs {
+		if in == ssa.Instruction(u) {
+			break
+		}
+		if st, ok := in.(*ssa.Store); ok && st.Addr == ssa.Value(al) {
+			last = st.Val
+		}
+	}
+	if last != nil {
+		return last
+	}
+	return v
+}
